@@ -7,15 +7,15 @@ one fake batch (row count 0..3, 0..2 columns) + a **symbolic** custom-metadata m
 and value of every framework key the function reads), ``resolve_shm_batch`` (vgi_rpc/shm.py)
 re-globalised over a fake segment, ``_maybe_attach_shm`` / ``_ConnectionShm.refresh``
 (vgi_rpc/rpc/_server.py) re-globalised with ``ShmSegment.attach`` := "returns a segment or raises
-FileNotFoundError | PermissionError | ValueError | OSError" (the documented behaviour of
-``SharedMemory(name=...)`` and of the header validation).
+FileNotFoundError | PermissionError | ValueError | OSError | struct.error" (the documented behaviour
+of ``SharedMemory(name=...)`` and of the header validation).
 
 Asserted: only ``RpcError`` / ``VersionError`` (typed, answered by ``serve_one`` which then keeps
 serving) or a normal return leave ``_read_request`` — plus ``pa.ArrowInvalid`` when, and only
 when, the Arrow stub itself reports undecodable bytes (answered, then the loop ends: allowed by
 the property).  Nothing but a return leaves ``_maybe_attach_shm`` / ``refresh`` (``serve_one``
 calls them unguarded after validation).  The exception classes the serve loop survives are read
-from the live source of ``RpcServer.serve`` / ``serve_one`` by a z3-free AST task so the
+from the live source of ``RpcServer.serve`` / ``serve_one`` by an AST task so the
 "answered" set used here cannot drift from the code.
 """
 
@@ -23,6 +23,7 @@ from __future__ import annotations
 
 import ast
 import inspect
+import struct
 import textwrap
 
 import pyarrow as pa
@@ -31,6 +32,7 @@ from engine.api import HarnessModelError, cond, task
 from engine.reglob import reglobalize
 
 from vgi_rpc import metadata as md
+from vgi_rpc.log import Level
 from vgi_rpc import shm as shm_mod
 from vgi_rpc.rpc import _server as srv
 from vgi_rpc.rpc import _wire as wire
@@ -42,7 +44,7 @@ BOUNDS = (
     "one request batch; metadata = None | mapping with symbolic presence of vgi_rpc.method / request_version / traceparent / tracestate / "
     "shm_segment_name / shm_segment_size / shm_offset / shm_length / log_level, byte values any bytes len<=3 (incl. non-UTF-8), numeric values "
     "(segment size, offset, length) = 'int() accepts -> any int' | 'int() rejects'; rows 0..3; columns 0..2; attach outcome in {segment, "
-    "FileNotFoundError, PermissionError, ValueError, OSError}; region decode in {ok, ArrowInvalid}; free in {ok, ValueError}"
+    "FileNotFoundError, PermissionError, ValueError, OSError, struct.error}; region decode in {ok, ArrowInvalid}; free in {ok, ValueError}"
 )
 OUTSIDE = (
     "truncated / corrupted byte strings and everything the Arrow C++ reader decides (framing, column types); the dispatch half of serve_one "
@@ -51,7 +53,7 @@ OUTSIDE = (
 )
 ASSUMPTIONS = [
     "int(<bytes>) := returns some int or raises ValueError; int(None) raises TypeError (C-level parser; CrossHair realises int(symbolic bytes))",
-    "ShmSegment.attach := returns a segment | raises FileNotFoundError | PermissionError | ValueError | OSError",
+    "ShmSegment.attach := returns a segment | raises FileNotFoundError | PermissionError | ValueError | OSError | struct.error (segment smaller than the header)",
     "the Arrow reader yields exactly one batch then StopIteration (well-framed single-batch request stream)",
     "typed errors RpcError / VersionError raised by _read_request are answered by serve_one and the loop continues (checked against the live source by serve_loop_answers_typed_errors)",
 ]
@@ -153,6 +155,7 @@ class _Reader:
 
     def __init__(self, raw: object, validation: object) -> None:
         self.n = 0
+        _H["reader"] = self
 
     def read_next_batch_with_custom_metadata(self) -> tuple[_Batch, object]:
         self.n += 1
@@ -231,6 +234,8 @@ class _AttachNS:
             raise ValueError("Bad SHM magic")
         if k == 4:
             raise OSError(22, "Invalid argument")
+        if k == 5:
+            raise struct.error("unpack_from requires a buffer of at least 24 bytes")  # foreign segment smaller than the header
         seg = _Seg(_H.get("free_raises", False))
         _H["attached"] = seg
         return seg
@@ -259,7 +264,7 @@ _KINDS = [None, TransportKind.PIPE, TransportKind.UNIX, TransportKind.HTTP, Tran
 
 _STUB_READER = "ValidatedReader / ipc.open_stream := one fake batch (0..2 columns, 0..3 rows) + symbolic metadata mapping, then StopIteration"
 _STUB_INT = "int := contract stub (any int | ValueError; TypeError on None) for numeric metadata values"
-_STUB_ATTACH = "ShmSegment.attach := segment | FileNotFoundError | PermissionError | ValueError | OSError"
+_STUB_ATTACH = "ShmSegment.attach := segment | FileNotFoundError | PermissionError | ValueError | OSError | struct.error (each observed on the real function)"
 _STUB_RESOLVE = "_deserialize_from_shm := fake batch | pa.ArrowInvalid; strip_keys / merge_metadata := opaque; segment := fake (read_buffer token, free ok | ValueError, close)"
 
 
@@ -290,7 +295,27 @@ def _classify(exc: BaseException | None) -> str:
 # ---------------------------------------------------------------------------
 
 
-def _serve_and_observe(extra_md: dict[bytes, bytes], rows: int, ncols: int = 2, static_region: str | None = None, md_none: bool = False) -> str | None:
+def _req_schema(ncols: int):
+    fields = [pa.field("a", pa.int64(), nullable=False), pa.field("b", pa.int64(), nullable=False)][:ncols]
+    return fields, pa.schema(fields)
+
+
+def _request_bytes(extra: dict[bytes, bytes] | None, nrows: int, ncols: int, none_md: bool = False) -> bytes:
+    """A well-framed single-batch Arrow IPC request stream with full control over the custom metadata."""
+    from vgi_rpc.utils import new_ipc_stream
+
+    fields, schema = _req_schema(ncols)
+    batch = pa.RecordBatch.from_arrays([pa.array([1] * nrows, type=pa.int64()) for _ in fields], schema=schema) if fields else pa.RecordBatch.from_pylist([{}] * nrows, schema=schema)
+    sink = pa.BufferOutputStream()
+    with new_ipc_stream(sink, schema) as w:
+        if none_md:
+            w.write_batch(batch)
+        else:
+            w.write_batch(batch, custom_metadata=pa.KeyValueMetadata(dict(extra or {})))
+    return sink.getvalue().to_pybytes()
+
+
+def _serve_and_observe(extra_md: dict[bytes, bytes], rows: int, ncols: int = 2, static_region: str | None = None, md_none: bool = False, expect_survive: bool = True) -> str | None:
     """Send one crafted request to a real RpcServer.serve() over os.pipe()s, then a normal call.
 
     Returns a description when the server neither answers nor keeps serving (silent death / hang).
@@ -302,7 +327,6 @@ def _serve_and_observe(extra_md: dict[bytes, bytes], rows: int, ncols: int = 2, 
 
     from vgi_rpc.rpc import RpcServer
     from vgi_rpc.rpc._transport import ShmPipeTransport, make_pipe_pair
-    from vgi_rpc.utils import new_ipc_stream
 
     class Svc(Protocol):
         def add(self, a: int, b: int) -> int: ...
@@ -311,19 +335,10 @@ def _serve_and_observe(extra_md: dict[bytes, bytes], rows: int, ncols: int = 2, 
         def add(self, a: int, b: int) -> int:
             return a + b
 
-    fields = [pa.field("a", pa.int64(), nullable=False), pa.field("b", pa.int64(), nullable=False)][:ncols]
-    schema = pa.schema(fields)
+    fields, schema = _req_schema(ncols)
 
     def request(extra: dict[bytes, bytes] | None, nrows: int, none_md: bool = False) -> bytes:
-        batch = pa.RecordBatch.from_arrays([pa.array([1] * nrows, type=pa.int64()) for _ in fields], schema=schema) if fields else pa.RecordBatch.from_pylist([{}] * nrows, schema=schema)
-        sink = pa.BufferOutputStream()
-        with new_ipc_stream(sink, schema) as w:
-            if none_md:
-                w.write_batch(batch)
-            else:
-                cm = dict(extra or {})
-                w.write_batch(batch, custom_metadata=pa.KeyValueMetadata(cm))
-        return sink.getvalue().to_pybytes()
+        return _request_bytes(extra, nrows, ncols, none_md)
 
     seg = None
     extra_md = dict(extra_md)
@@ -373,23 +388,29 @@ def _serve_and_observe(extra_md: dict[bytes, bytes], rows: int, ncols: int = 2, 
         client_t.writer.write(request(extra_md, rows, md_none))
         client_t.writer.flush()
         first = reply(3.0)
+        second = None
+        if first:
+            good = {md.RPC_METHOD_KEY: b"add", md.REQUEST_VERSION_KEY: md.REQUEST_VERSION}
+            try:
+                client_t.writer.write(_request_bytes(good, 1, 2))
+                client_t.writer.flush()
+                second = reply(3.0)
+            except OSError:
+                second = 0
         th.join(0.2)
         alive = th.is_alive()
-        second = None
-        if alive:
-            good = {md.RPC_METHOD_KEY: b"add", md.REQUEST_VERSION_KEY: md.REQUEST_VERSION}
-            client_t.writer.write(request(good, 1))
-            client_t.writer.flush()
-            second = reply(3.0)
         try:
             client_t.close()
         except Exception:  # noqa: BLE001
             pass
         th.join(1.0)
         if first == 0:
-            return f"no reply to the request (metadata {extra_md!r}, {rows} rows); server thread: {end.get('how', 'still blocked')}; follow-up call on the same connection: {'not possible, serve loop is gone' if not alive else f'{second} reply bytes'}"
-        if alive and not second:
-            return f"request answered ({first} bytes) but the follow-up call got no reply"
+            return (
+                f"no reply to the request (metadata {extra_md!r}, {rows} rows); server thread: {end.get('how', 'still blocked')}; "
+                f"follow-up call on the same connection: {'not possible, serve loop is gone' if not alive else 'not attempted'}"
+            )
+        if expect_survive and not second:
+            return f"request (metadata {extra_md!r}, {rows} rows) answered ({first} bytes) but the connection did not survive it: follow-up call got no reply; server thread: {end.get('how', 'still running')}"
         return None
     finally:
         if seg is not None:
@@ -421,7 +442,7 @@ def _md_from_args(a: dict) -> dict[bytes, bytes]:
     put("seg_size", a.get("has_size", False), _wire_num(True, a.get("size_ok", True), a.get("size", 1)))
     put("off", a.get("has_off", False), _wire_num(True, a.get("off_ok", True), a.get("off", 0)))
     put("len", a.get("has_len", False), _wire_num(True, a.get("len_ok", True), a.get("length", 0)))
-    put("log", a.get("has_log", False), b"INFO")
+    put("log", a.get("has_log", False), Level.INFO.value.encode())
     return out
 
 
@@ -431,7 +452,31 @@ def _md_from_args(a: dict) -> dict[bytes, bytes]:
 
 
 def _replay_dispatch(a: dict) -> str | None:
-    return _serve_and_observe(_md_from_args(a), a.get("rows", 1), a.get("ncols", 2), md_none=a.get("md_none", False))
+    rows, ncols, md_none = a.get("rows", 1), a.get("ncols", 2), a.get("md_none", False)
+    dead = _serve_and_observe(_md_from_args(a), rows, ncols, md_none=md_none)
+    if dead or "has_method" not in a:
+        return dead
+    # un-stubbed _read_request (real pyarrow reader) on the same request: accepted <=> well-formed
+    from io import BytesIO
+
+    mdd = _md_from_args(a)
+    well_formed = (not md_none) and a["has_method"] and a["has_version"] and bytes(a["version"]) == md.REQUEST_VERSION and (ncols == 0 or rows == 1)
+    try:
+        bytes(a["method"]).decode()
+        utf8 = True
+    except UnicodeDecodeError:
+        utf8 = False
+    try:
+        got = wire._read_request(BytesIO(_request_bytes(mdd, rows, ncols, md_none)))
+    except (RpcError, VersionError) as e:
+        if well_formed and utf8:
+            return f"well-formed request (metadata {mdd!r}, {rows} rows, {ncols} columns) rejected with {type(e).__name__}: {e}"
+        return None
+    except Exception as e:  # noqa: BLE001
+        return f"_read_request raised {type(e).__name__}: {e} for metadata {mdd!r}"
+    if not (well_formed and utf8):
+        return f"malformed request accepted: metadata {None if md_none else mdd!r}, {rows} rows, {ncols} columns -> {got!r}"
+    return None
 
 
 @cond(q=60, t=240, stubs=[_STUB_READER], encoded=[wire._read_request], replay=_replay_dispatch,
@@ -453,6 +498,10 @@ def read_request_method_version(md_none: bool, other_keys: bool, has_method: boo
         exc = e
     kind = _classify(exc)
     if kind not in ("return", "typed"):
+        return False
+    if _H["reader"].n < 2:
+        # rejected or accepted, the request stream must have been read past its EOS: on a pipe the
+        # reader is shared, left-over bytes would be parsed as the start of the next request
         return False
     well_formed = (not md_none) and has_method and has_version and version == md.REQUEST_VERSION and (ncols == 0 or rows == 1)
     if kind == "return":
@@ -509,7 +558,8 @@ def _replay_pointer(a: dict) -> str | None:
             region = "stale"
     else:
         region = "none"
-    return _serve_and_observe(_md_from_args(a), a.get("rows", 0), a.get("ncols", 2), static_region=region)
+    # a region that does not decode is "bytes that are not a valid Arrow IPC stream": answered, then the loop may end
+    return _serve_and_observe(_md_from_args(a), a.get("rows", 0), a.get("ncols", 2), static_region=region, expect_survive=region != "none")
 
 
 @cond(q=60, t=240, stubs=[_STUB_READER, _STUB_INT, _STUB_RESOLVE], encoded=[wire._read_request, shm_mod.resolve_shm_batch, shm_mod.is_shm_pointer_batch],
@@ -527,7 +577,7 @@ def read_request_shm_pointer(has_off: bool, off_ok: bool, off: int, has_len: boo
     _H["resolved_rows"] = resolved_rows
     _H["md"] = _MD([
         _entry("method", True, b"add"), _entry("version", True, md.REQUEST_VERSION),
-        _entry("off", has_off, _Num(off_ok, off)), _entry("len", has_len, _Num(len_ok, length)), _entry("log", has_log, b"INFO"),
+        _entry("off", has_off, _Num(off_ok, off)), _entry("len", has_len, _Num(len_ok, length)), _entry("log", has_log, Level.INFO.value.encode()),
     ], False)
     seg = _Seg(free_raises)
     exc: BaseException | None = None
@@ -563,11 +613,11 @@ def _replay_attach(a: dict) -> str | None:
 
 
 @cond(q=60, t=240, stubs=[_STUB_INT, _STUB_ATTACH], encoded=[srv._maybe_attach_shm], replay=_replay_attach,
-      bound="metadata None | {segment name: any bytes len<=3, present/absent; size: absent | rejected | any int}; transport kind in {None, PIPE, UNIX, HTTP, TCP}; attach outcome 0..4",
+      bound="metadata None | {segment name: any bytes len<=3, present/absent; size: absent | rejected | any int}; transport kind in {None, PIPE, UNIX, HTTP, TCP}; attach outcome 0..5",
       signature=lambda args, conc: "C05:attach:exception-escapes")
 def maybe_attach_never_raises(md_none: bool, has_name: bool, name: bytes, has_size: bool, size_ok: bool, size: int, kind: int, attach: int) -> bool:
     """
-    pre: len(name) <= 3 and 0 <= kind <= 4 and 0 <= attach <= 4
+    pre: len(name) <= 3 and 0 <= kind <= 4 and 0 <= attach <= 5
     post: _
     """
     _reset()
@@ -585,12 +635,63 @@ def maybe_attach_never_raises(md_none: bool, has_name: bool, name: bytes, has_si
     return calls == 0 or attach != 0
 
 
-@cond(q=60, t=240, stubs=[_STUB_INT, _STUB_ATTACH], encoded=[srv._ConnectionShm.refresh, srv._maybe_attach_shm], replay=_replay_attach,
+def _seg_open(seg: object) -> bool:
+    try:
+        return seg.buf is not None  # type: ignore[attr-defined]
+    except Exception:  # noqa: BLE001
+        return False
+
+
+def _replay_refresh(a: dict) -> str | None:
+    """Pipe replay first; then the real _ConnectionShm over real POSIX segments (cache consistency)."""
+    dead = _replay_attach(a)
+    if dead:
+        return dead
+    if a.get("md_none") or not a.get("has_name"):
+        return None
+    owner_old = shm_mod.ShmSegment.create(shm_mod.HEADER_SIZE + 65536)
+    owner_new = shm_mod.ShmSegment.create(shm_mod.HEADER_SIZE + 65536)
+    conn = srv._ConnectionShm()
+    try:
+        old = None
+        if a.get("cached"):
+            old = shm_mod.ShmSegment.attach(owner_old.name, owner_old.size, track=False)
+            conn.segment, conn.name = old, bytes(a["cached_name"])
+        ok = a.get("attach") == 0
+        name = owner_new.name.encode() if ok else b"verif-no-such-segment"
+        if a.get("cached") and bytes(a["cached_name"]) == bytes(a["name"]):
+            name = bytes(a["cached_name"])  # same name as cached: refresh must be a no-op
+        fields = {md.SHM_SEGMENT_NAME_KEY: name}
+        if a.get("has_size"):
+            fields[md.SHM_SEGMENT_SIZE_KEY] = str(owner_new.size).encode() if a.get("size_ok") else b"x"
+        req = pa.KeyValueMetadata(fields)
+        try:
+            conn.refresh(req, TransportKind.UNIX if a.get("unix") else TransportKind.PIPE)
+        except Exception as e:  # noqa: BLE001
+            return f"_ConnectionShm.refresh raised {type(e).__name__}: {e}"
+        switched = conn.segment is not old and conn.segment is not None
+        if switched:
+            if conn.name != name or not _seg_open(conn.segment) or (old is not None and _seg_open(old)):
+                return f"after switching segments the cache holds name {conn.name!r} (advertised {name!r}); old attachment still open: {old is not None and _seg_open(old)}"
+        elif old is not None and (conn.segment is None or not _seg_open(old)):
+            return f"refresh for {name!r} did not attach anything but detached the cached segment {a['cached_name']!r}: later offset-only batches can no longer be resolved"
+        return None
+    finally:
+        conn.close()
+        for sg in (owner_old, owner_new):
+            try:
+                sg.close()
+                sg.unlink()
+            except Exception:  # noqa: BLE001
+                pass
+
+
+@cond(q=60, t=240, stubs=[_STUB_INT, _STUB_ATTACH], encoded=[srv._ConnectionShm.refresh, srv._maybe_attach_shm], replay=_replay_refresh,
       bound="cache empty | holding a segment under a name (bytes len<=3); request metadata as in maybe_attach_never_raises; PIPE/UNIX",
       signature=lambda args, conc: "C05:attach:exception-escapes")
 def refresh_never_raises(md_none: bool, has_name: bool, name: bytes, has_size: bool, size_ok: bool, size: int, unix: bool, attach: int, cached: bool, cached_name: bytes) -> bool:
     """
-    pre: len(name) <= 3 and len(cached_name) <= 3 and 0 <= attach <= 4
+    pre: len(name) <= 3 and len(cached_name) <= 3 and 0 <= attach <= 5
     post: _
     """
     _reset()
@@ -613,11 +714,11 @@ def refresh_never_raises(md_none: bool, has_name: bool, name: bytes, has_size: b
 
 
 @cond(q=60, t=240, stubs=[_STUB_READER, _STUB_INT, _STUB_ATTACH, _STUB_RESOLVE], encoded=[wire._read_request, srv._maybe_attach_shm, shm_mod.resolve_shm_batch], replay=_replay_attach,
-      bound="pointer request (0 rows) naming its own segment: name bytes len<=3, size/offset/length accepted (any int) or rejected; attach outcome 0..4; decode ok | ArrowInvalid",
+      bound="pointer request (0 rows) naming its own segment: name bytes len<=3, size/offset/length accepted (any int) or rejected; attach outcome 0..5; decode ok | ArrowInvalid",
       signature=lambda args, conc: "C05:attach:exception-escapes")
 def read_request_dynamic_attach(has_name: bool, name: bytes, has_size: bool, size_ok: bool, size: int, off: int, length: int, attach: int, decode_ok: bool, rows: int) -> bool:
     """
-    pre: len(name) <= 3 and 0 <= attach <= 4 and 0 <= rows <= 1
+    pre: len(name) <= 3 and 0 <= attach <= 5 and 0 <= rows <= 1
     post: _
     """
     _reset()
